@@ -1009,6 +1009,30 @@ def rule_e17(ctx, rule_id: str = "C07-E17") -> None:
     ctx.require(n >= 2, "no value that may be a frame column found in SynProcessor (%d)" % n)
 
 
+def rule_e18(ctx, rule_id: str = "C07-E18") -> None:
+    """Verdict i and difference i belong to reaction i: the lists the comparator and the decomposer return are joined
+    by position with the rows.  Work handed out in *strided* slices (`pairs[k::n]`) comes back in input order only if
+    the results are interleaved again; concatenating the slice results returns a permutation (0, n, 2n, .., 1, n+1, ..)."""
+    ctx.rule(rule_id, "the per-reaction work of the processors is not partitioned into strided slices", 1)
+    prog = ctx.prog
+    n = 0
+    for q, f in sorted(prog.functions.items()):
+        if not q.startswith("synrbl.SynProcessor."):
+            continue
+        n += 1
+        for x in own_nodes(f.node):
+            if isinstance(x, ast.Subscript) and isinstance(x.slice, ast.Slice) and x.slice.step is not None and isinstance(x.ctx, ast.Load):
+                st = x.slice.step
+                if isinstance(st, ast.Constant) and st.value in (1, None):
+                    continue
+                if isinstance(st, ast.UnaryOp) and isinstance(st.operand, ast.Constant) and st.operand.value == 1 and x.slice.lower is None and x.slice.upper is None:
+                    continue  # [::-1] is a reversal, judged by the order rules
+                ctx.instance(rule_id, "%s: %s" % (q.split("synrbl.", 1)[-1], unparse(x)[:50]), f.loc(x), ok=False)
+                ctx.finding(rule_id, "%s:strided-partition" % q.split("synrbl.", 1)[-1], f.loc(x), "%s takes every n-th element (%s): results computed per such slice and put together slice after slice are a permutation of the input order, so verdicts and difference formulas are attached to other reactions than the ones they were computed from" % (f.name, unparse(x)[:50]))
+    ctx.instance(rule_id, "%d processor function(s) inspected" % n, "", ok=True)
+    ctx.require(n >= 10, "SynProcessor collapsed (%d functions)" % n)
+
+
 def rule_e7(ctx) -> None:
     """The carbon-count memo is keyed by the SMILES only although the count
     also depends on the atom type: sound only while the memo lives on an
@@ -1115,3 +1139,4 @@ def check(ctx) -> None:
 
     c08.rule_d7(ctx, "C07-E16")
     rule_e17(ctx)
+    rule_e18(ctx)
